@@ -411,7 +411,11 @@ pub fn find_json_escape(bytes: &[u8], start: usize) -> usize {
 
 /// Verification hook: run the JSON escape scanner with the x86 tier forced.
 #[cfg(feature = "verif-hooks")]
-pub(crate) fn verif_find_json_escape_tier(bytes: &[u8], start: usize, use_avx2: bool) -> Option<usize> {
+pub(crate) fn verif_find_json_escape_tier(
+    bytes: &[u8],
+    start: usize,
+    use_avx2: bool,
+) -> Option<usize> {
     #[cfg(all(
         target_arch = "x86_64",
         not(feature = "scalar-yaml"),
